@@ -295,6 +295,31 @@ fn nest_inputs(tier: Tier) -> Vec<String> {
             }
         }
     }
+    // literal edge values: every month 00..=99 of a timestamp literal x edge days x edge years (the
+    // grammar admits any digits), time-of-day/zone suffixes on edge months, and numeric / duration
+    // literals around the i64 and f64 limits
+    for year in ["0000", "1970", "2024", "2262", "2263", "9999"] {
+        for month in 0..100 {
+            for day in ["00", "01", "28", "29", "31", "32", "99"] {
+                v.push(format!("let x = @{year}-{month:02}-{day}\n"));
+                if matches!(month, 0 | 1 | 2 | 12 | 13) {
+                    for suffix in ["T00:00:00Z", "T99:99:99+99:99", "T23:59:59-99:00"] {
+                        v.push(format!("let x = @{year}-{month:02}-{day}{suffix}\n"));
+                    }
+                }
+            }
+        }
+    }
+    for n in ["9223372036854775807", "9223372036854775808", "18446744073709551616", "99999999999999999999999999", "0"] {
+        v.push(format!("let x = {n}\n"));
+        v.push(format!("let x = -{n}\n"));
+        v.push(format!("let x = {n}.0\n"));
+        v.push(format!("let x = {n}e999\n"));
+        for unit in ["ns", "us", "ms", "s", "m", "h", "d"] {
+            v.push(format!("let x = {n}{unit}\n"));
+            v.push(format!("stream S = A\n    .window({n}{unit})\n"));
+        }
+    }
     v.dedup();
     v
 }
@@ -416,7 +441,7 @@ impl Gen {
                 self.short.decode(i, &mut d);
                 (d.iter().map(|k| ALPHABET[*k]).collect(), "string over the 14-symbol alphabet".into())
             }
-            SpaceId::Nest => (self.nest[i as usize].clone(), "nested brackets".into()),
+            SpaceId::Nest => (self.nest[i as usize].clone(), "nesting / literal-edge family".into()),
             SpaceId::LoopToken(s) => self.input(&SpaceId::Token(*s), self.loop_token[*s][i as usize]),
             SpaceId::LoopByte(s) => self.input(&SpaceId::Byte(*s), self.loop_byte[*s][i as usize]),
             SpaceId::Token(s) => {
@@ -1075,7 +1100,7 @@ pub fn run(args: &Args) -> ! {
     rep.absorb(acc);
     let seed_names = |v: &[usize]| v.iter().map(|i| gen.seeds[*i].path.trim_start_matches("/repo/").to_string()).collect::<Vec<_>>().join(", ");
     rep.rule = format!(
-        "Exhaustive, every input run by the real varpulis_parser::parse in a child process with a {} ms budget per input: (a) all strings of length <= {} over the alphabet {:?}; (b) for each seed in [{}] (shipped example programs, examples/**/*.vpl, exact duplicates dropped, smallest first): the program itself, every single-token deletion, duplication and substitution by each of the 40 dictionary tokens {:?} (tokens = identifier/number runs, runs of spaces, every other char); for each seed in [{}]: every single-char deletion and every insertion of one alphabet symbol at every char boundary{}; (c) bracket nesting: prefixes {{none, assignment, stream .where(, fn body}} x brackets {{(, [, {{, mixed}} x depth 1..={} x core {{none, 1, a}} x closers {{0, d/2, d}}, and block nesting by indentation: {{if, while, for}} headers nested 1..={} deep x unit {{space, tab, 4 spaces}} x {{with, without}} innermost statement{}. Non-trivial = the parser returned a program with at least one statement, or an error located after offset 0.",
+        "Exhaustive, every input run by the real varpulis_parser::parse in a child process with a {} ms budget per input: (a) all strings of length <= {} over the alphabet {:?}; (b) for each seed in [{}] (shipped example programs, examples/**/*.vpl, exact duplicates dropped, smallest first): the program itself, every single-token deletion, duplication and substitution by each of the 40 dictionary tokens {:?} (tokens = identifier/number runs, runs of spaces, every other char); for each seed in [{}]: every single-char deletion and every insertion of one alphabet symbol at every char boundary{}; (c) bracket nesting: prefixes {{none, assignment, stream .where(, fn body}} x brackets {{(, [, {{, mixed}} x depth 1..={} x core {{none, 1, a}} x closers {{0, d/2, d}}, and block nesting by indentation: {{if, while, for}} headers nested 1..={} deep x unit {{space, tab, 4 spaces}} x {{with, without}} innermost statement{}; literal edges: timestamp literals @Y-M-D for years {{0000,1970,2024,2262,2263,9999}} x every month 00..=99 x days {{00,01,28,29,31,32,99}} (plus 3 time/zone suffixes on months 00,01,02,12,13) and integer/float/duration literals around the i64/u64/f64 limits with every duration unit. Non-trivial = the parser returned a program with at least one statement, or an error located after offset 0.",
         BUDGET.as_millis(),
         gen.short.max_len,
         ALPHABET,
